@@ -13,3 +13,12 @@ CLAIMED["C11"] = (
     "random long histories recorded from the real filter are validated by TLC against the set model. Exhaustive on the model, "
     "sampled on 64-bit IDs.",
     TB, "5.11")
+HOOK_COMMITS.append("9a14efa")
+CLAIMED["C10"] = (
+    "model_checking", "TLA+ handshake/salt-cache model (TLC, all interleavings and clock ticks), schedule replay on real threads, trace validation",
+    "TLC checks the code-shaped salt-cache/handshake design (check, open, type, timestamp, atomic insert; lock and cache expiry explicit) "
+    "for every interleaving of 2-3 copies and every clock tick, shows each named deviation violates an invariant, and exports every "
+    "sequential, timed and concurrent behaviour plus every one-shot message rule; each is replayed on the real codecs (reference-built "
+    "messages with exact timestamps/types/echoes; TLC's interleavings forced on real threads through cfg-guarded sync points; cache expiry "
+    "with real sleeps). Random presentation histories recorded from a real listener are validated by TLC.",
+    TB + "; reference codec (harness/src/refcodec.rs, refvmess.rs) builds the messages", "5.10")
